@@ -1125,9 +1125,9 @@ func run(c *vf.Ctx) {
 	}
 	c.SetExhaustive(true)
 	c.Logf("random vote sets")
-	c.Parallel(c.N(6000, 150000), 16, 1<<32, func(i int, r *rand.Rand) { randomVoteSet(c, i, r) })
+	c.Parallel(c.N(10000, 150000), 16, 1<<32, func(i int, r *rand.Rand) { randomVoteSet(c, i, r) })
 	c.Logf("random height vote sets")
-	c.Parallel(c.N(2500, 60000), 16, 1<<33, func(i int, r *rand.Rand) { randomHeightVoteSet(c, i, r) })
+	c.Parallel(c.N(4000, 60000), 16, 1<<33, func(i int, r *rand.Rand) { randomHeightVoteSet(c, i, r) })
 
 	c.Assume("crypto/ed25519 (standard library) is the signature reference used to validate the harness's own construction knowledge; Vote.SignBytes is trusted as the canonical encoding")
 	c.Assume("the reference model follows the documented storage rules of vote_set.go (canonical vote per validator, conflicting votes counted only for peer-claimed blocks, votes for the +2/3 block get priority)")
